@@ -228,7 +228,7 @@ pub fn gen_scenario(seed: u64, large: u8) -> Scenario {
             continue;
         }
         // operations that meet a pool, a keyed map or an address get 3x the weight of the rest
-        let hot = op.large_ok || matches!(op.name, "stitch_triangulation" | "sweep_intersections" | "sweep_intersections_refs" | "interior_point" | "monotone_subdivision" | "par_iter_multipolygon" | "par_iter_multipoint_mls" | "unary_union_multi" | "intersection_poly_poly" | "constrained_triangulation_members" | "constrained_outer_triangulation" | "aggregates" | "geodesic_aggregates" | "concave_hull" | "k_nearest_concave_hull" | "outliers");
+        let hot = op.large_ok || matches!(op.name, "stitch_triangulation" | "sweep_intersections" | "sweep_intersections_refs" | "interior_point" | "monotone_subdivision" | "par_iter_multipolygon" | "par_iter_multipoint_mls" | "unary_union_multi" | "intersection_poly_poly" | "constrained_triangulation_members" | "constrained_outer_triangulation" | "aggregates" | "geodesic_aggregates" | "concave_hull" | "k_nearest_concave_hull" | "outliers" | "transforms" | "traversals");
         if large == 0 && !hot && !rng.chance(1, 3) {
             continue;
         }
@@ -238,7 +238,7 @@ pub fn gen_scenario(seed: u64, large: u8) -> Scenario {
         }
         let mut fam = *rng.pick(&fams);
         // folds over many members: half of the time on full-mantissa doubles
-        if large == 0 && matches!(op.name, "aggregates" | "geodesic_aggregates" | "par_iter_multipolygon" | "par_iter_multipoint_mls") && rng.chance(1, 2) {
+        if large == 0 && matches!(op.name, "aggregates" | "geodesic_aggregates" | "par_iter_multipolygon" | "par_iter_multipoint_mls" | "transforms" | "traversals") && rng.chance(1, 2) {
             fam = "mantissa";
         }
         // stitching is quadratic in the boundary lines but cheap: a third of the time give it
@@ -260,7 +260,7 @@ pub fn gen_scenario(seed: u64, large: u8) -> Scenario {
             };
         }
         // thousands of full-mantissa members are for the aggregate / par-iter operations only
-        if fam == "mantissa" && !matches!(op.name, "aggregates" | "geodesic_aggregates" | "par_iter_multipolygon" | "par_iter_multipoint_mls") {
+        if fam == "mantissa" && !matches!(op.name, "aggregates" | "geodesic_aggregates" | "par_iter_multipolygon" | "par_iter_multipoint_mls" | "transforms" | "traversals") {
             // (disjoint small triangles are cheap to union: many-input unary unions stay in)
             spec.size = spec.size.min(if matches!(op.name, "unary_union" | "unary_union_multi") { 1000 } else { 60 });
         }
